@@ -19,7 +19,6 @@ structure EInv (E : Env S) (s : St S) : Prop where
   e2 : ∀ nt ci, (s.emptiesOf nt).contains ci = true → s.bankAt nt ci = []
   d1 : ∀ q, q ∈ s.deleted → E.filter q = false
   be : ∀ nt ci, Entered s nt ci → ci < (s.clOf nt).length
-  ini : ∀ nt, s.clOf nt ≠ [] → ∀ P rl, E.G.rule? nt P = some rl → ∀ a ∈ rl.1, s.clOf (ntOf a) ≠ []
   lb : LB E s
 
 def CR (E : Env S) (s : St S) (nt : NT S Unit) : Prop :=
@@ -191,7 +190,7 @@ theorem emit_k (E : Env S) (nt : NT S Unit) (fr : Frame) :
       · next hdel hfil =>
         have hrej : E.filter (mkProg fr.P fr.isFun a) = false := by simpa using hfil
         have he' : EInv E (s.addDeleted (mkProg fr.P fr.isFun a)) := by
-          refine ⟨fun nt' ci h => ?_, fun q hq => ?_, fun nt' ci h => ?_, fun nt' h => ?_, ?_⟩
+          refine ⟨fun nt' ci h => ?_, fun q hq => ?_, fun nt' ci h => ?_, ?_⟩
           · rw [St.addDeleted_bankAt]; exact he.e2 nt' ci (by rw [← St.addDeleted_emptiesOf]; exact h)
           · rcases (St.mem_addDeleted_iff s _ q).mp hq with rfl | h
             · exact hrej
@@ -200,9 +199,6 @@ theorem emit_k (E : Env S) (nt : NT S Unit) (fr : Frame) :
             apply he.be nt' ci
             unfold Entered at h ⊢
             rw [St.addDeleted_bankOf, St.addDeleted_emptiesOf] at h; exact h
-          · intro P rl hr a' ha'
-            rw [St.addDeleted_clOf] at h ⊢
-            exact he.ini nt' h P rl hr a' ha'
           · intro nt' c rest' p x hc hx
             rw [St.addDeleted_clOf] at hc
             exact he.lb nt' c rest' p x hc hx
@@ -231,7 +227,7 @@ theorem emit_k (E : Env S) (nt : NT S Unit) (fr : Frame) :
           · obtain ⟨rfl, rfl⟩ := hh; rw [hself]; exact List.mem_append_left _ hp
           · rw [hother nt' ci' hh]; exact hp
         have hcost : costOf E (mkProg fr.P fr.isFun a) nt = some fr.cost.fin := hk.fc.2 a (List.mem_cons_self ..)
-        refine ⟨⟨fun nt' ci h => ?_, he.d1, fun nt' ci h => ?_, he.ini, he.lb⟩, fun S' => (hcr S').mono rfl (hbm S'),
+        refine ⟨⟨fun nt' ci h => ?_, he.d1, fun nt' ci h => ?_, he.lb⟩, fun S' => (hcr S').mono rfl (hbm S'),
           fun S' hne => ⟨rfl, rfl, by rw [St.bankOf_setBank]; simp [hne], rfl⟩, rfl,
           fun ci' hne => lookup_setBank_other s nt nt fr.ci ci' _ (fun hh => hne hh.2), ?_⟩
         · by_cases hh : nt' = nt ∧ ci = fr.ci
